@@ -369,6 +369,11 @@ class SpecEval:
                 a = f"(ite (truthy {asV(ex)}) (seqof {asV(ex)}) (as seq.empty (Seq V)))"
                 b = f"(ite (truthy {asV(pr)}) (seqof {asV(prq)}) (as seq.empty (Seq V)))"
                 return Val(f"(v_list (seq.++ {a} {b}))", kind="list")
+            if f == "has_unsupported":
+                # the *documented* list (docs/ + property statement), not the live constant: a shrunk constant must be noticed
+                from spec.pyspec import DOCUMENTED_UNSUPPORTED
+                d = asV(self.ev(n.args[0]))
+                return mkB(Or(*[f"(dhas {d} {smt.sstr(kw)})" for kw in sorted(DOCUMENTED_UNSUPPORTED)]))
             if f == "obj_dict":
                 x = asV(self.ev(n.args[0]))
                 return Val(self.e.as_dict(x), kind="dict")
